@@ -18,6 +18,14 @@ impl Default for Big16k {
     }
 }
 
+#[derive(Clone)]
+struct Big512k([u64; 65536]);
+impl Default for Big512k {
+    fn default() -> Self {
+        Big512k([0; 65536])
+    }
+}
+
 fn summarize(op: &str, s: &[u64], bytes: usize) {
     let n = s.len();
     let first = s.first().copied().unwrap_or(0);
@@ -71,6 +79,22 @@ fn build(op: String) {
             let b2 = GenericArray::<Big16k, generic_array::typenum::U192>::default_boxed();
             let flat: Vec<u64> = b.iter().map(|e| e[31]).chain(b2.iter().map(|e| e.0[2047])).collect();
             summarize(&op, &flat, std::mem::size_of_val(&*b) + std::mem::size_of_val(&*b2));
+        }
+        // N <= 32 with elements so large that even a handful exceeds the stack
+        "default_boxed_32x16k" => {
+            let b = GenericArray::<Big16k, generic_array::typenum::U32>::default_boxed();
+            let flat: Vec<u64> = b.iter().map(|e| e.0[2047]).collect();
+            summarize(&op, &flat, std::mem::size_of_val(&*b));
+        }
+        "generate_8x128k" => {
+            let b = Box::<GenericArray<[u64; 16384], generic_array::typenum::U8>>::generate(|i| [(i % 1000) as u64; 16384]);
+            let flat: Vec<u64> = b.iter().map(|e| e[16383]).collect();
+            summarize(&op, &flat, std::mem::size_of_val(&*b));
+        }
+        "default_boxed_1x512k" => {
+            let b = GenericArray::<Big512k, generic_array::typenum::U1>::default_boxed();
+            let flat: Vec<u64> = b.iter().map(|e| e.0[65535]).collect();
+            summarize(&op, &flat, std::mem::size_of_val(&*b));
         }
         _ => panic!("HARNESS: big op {}", op),
     }
